@@ -56,6 +56,11 @@ def multi_module_runs(tier: str):
                 files = dict(sc["files"])
                 files[f] = files[f] + "\n\ndef unrelated_extra(q):\n    return q.unrelated\n"
                 variants.append((f"{f} with an unrelated definition", files))
+                # unrelated definitions the scenario names itself (e.g. spelled like a helper that is private to an imported module)
+                for ui, extra in enumerate(sc.get("unrelated", {}).get(f, [])):
+                    files = dict(sc["files"])
+                    files[f] = files[f] + "\n\n" + extra
+                    variants.append((f"{f} with the unrelated definition #{ui}", files))
             for vi, (label, files) in enumerate(variants):
                 d = root / f"{name}_{vi}"
                 d.mkdir()
